@@ -13,13 +13,19 @@ open Drv
 let keqb = N.eqb
 let tn = tok_of_n
 let join sep f l = if l = [] then "-" else String.concat sep (List.map f l)
-let kvtok (k, v) = tn k ^ ":" ^ tn v
+(* values: numbers; "nil" (Go's nil interface) and "es" (the empty string) are two further values,
+   encoded above the uint64 range; the model treats them like any other value *)
+let v_nil = n_of_z (ZA.shift_left ZA.one 64)
+let v_es = n_of_z (ZA.succ (ZA.shift_left ZA.one 64))
+let v_of_tok s = if s = "nil" then v_nil else if s = "es" then v_es else n_of_tok s
+let tv v = if v = v_nil then "nil" else if v = v_es then "es" else tn v
+let kvtok (k, v) = tn k ^ ":" ^ tv v
 
 let res_tok (r : (n, n) res) : string =
   match r with
   | RCount c -> "n" ^ tn c
   | RVal None -> "v-"
-  | RVal (Some v) -> "v" ^ tn v
+  | RVal (Some v) -> "v" ^ tv v
   | RBool b -> "b" ^ tok_of_bool b
   | RKV None -> "kv-"
   | RKV (Some p) -> "kv" ^ kvtok p
@@ -28,14 +34,14 @@ let res_tok (r : (n, n) res) : string =
   | RUnit -> "u"
   | RFoundCount (b, c) -> "f" ^ tok_of_bool b ^ ":" ^ tn c
   | RPrevCount (None, c) -> "p-:" ^ tn c
-  | RPrevCount (Some v, c) -> "p" ^ tn v ^ ":" ^ tn c
+  | RPrevCount (Some v, c) -> "p" ^ tv v ^ ":" ^ tn c
 
 let sort_log l = List.sort (fun (a, x) (b, y) ->
   let c = ZA.compare (z_of_n a) (z_of_n b) in if c <> 0 then c else ZA.compare (z_of_n x) (z_of_n y)) l
 
 let parse_op (t : string list) : (n, n) op =
   match t with
-  | ["A"; k; v; w] -> OAdd (n_of_tok k, n_of_tok v, n_of_tok w)
+  | ["A"; k; v; w] -> OAdd (n_of_tok k, v_of_tok v, n_of_tok w)
   | ["G"; k] -> OGet (n_of_tok k)
   | ["P"; k] -> OPeek (n_of_tok k)
   | ["C"; k] -> OContains (n_of_tok k)
@@ -47,8 +53,8 @@ let parse_op (t : string list) : (n, n) op =
   | ["WT"] -> OWeight
   | ["Z"; mw; ms] -> OResize (n_of_tok mw, z_of_tok ms)
   | ["PU"] -> OPurge
-  | ["CA"; k; v; w] -> OContainsOrAdd (n_of_tok k, n_of_tok v, n_of_tok w)
-  | ["PA"; k; v; w] -> OPeekOrAdd (n_of_tok k, n_of_tok v, n_of_tok w)
+  | ["CA"; k; v; w] -> OContainsOrAdd (n_of_tok k, v_of_tok v, n_of_tok w)
+  | ["PA"; k; v; w] -> OPeekOrAdd (n_of_tok k, v_of_tok v, n_of_tok w)
   | _ -> failwith ("bad op: " ^ String.concat " " t)
 
 let is_purge = function OPurge -> true | _ -> false
